@@ -10,6 +10,7 @@ def handlers : List (String × (Json → R Json)) := [
   ("spec_ok", Disc.hSpecOk),
   ("shuffle_decide", Disc.hShuffleDecide),
   ("lag_index", Disc.hLagCols),
+  ("sel_of_coef", Disc.hSelOfCoef),
   ("logistic_step", Syn.hLogisticStep),
   ("row_normalise", Syn.hRowNormalise),
   ("linear_series", Syn.hLinearSeries),
